@@ -8,7 +8,7 @@ for l in open('/verif/properties.jsonl'):
         break
 wt = "/tmp/mut_%s" % pid
 files = ", ".join(p['anchors']['files'])
-print(f"""You are testing how robust a Python library is against subtle regressions. The library is qc-tum/qib (quantum circuits; pure Python over numpy/scipy). You have your own scratch git worktree of it at {wt} (work ONLY there; never touch /repo or /verif, and do not read anything under /verif). Run Python as `cd {wt} && PYTHONPATH={wt}/src /venv/bin/python ...` and tests as `cd {wt} && PYTHONPATH={wt}/src /venv/bin/python -m pytest -q -p no:cacheprovider tests/<file>` (the full suite `tests/` takes 2-8 minutes; all 61 tests pass on the unchanged tree — record the baseline for the files you rely on first).
+print(f"""You are testing how robust a Python library is against subtle regressions. The library is qc-tum/qib (quantum circuits; pure Python over numpy/scipy). You have your own scratch git worktree of it at {wt} (work ONLY there; never touch /repo or /verif, and do not read anything under /verif). Run Python as `cd {wt} && OMP_NUM_THREADS=2 PYTHONPATH={wt}/src /venv/bin/python ...` and tests as `cd {wt} && OMP_NUM_THREADS=2 OPENBLAS_NUM_THREADS=2 PYTHONPATH={wt}/src /venv/bin/python -m pytest -q -p no:cacheprovider tests/<file>` (ALWAYS set the two thread variables: the machine is shared; with them the full suite `tests/` takes 1-3 minutes; all 61 tests pass on the unchanged tree — record the baseline for the files you rely on first).
 
 The semantic property under attack ({pid}: {p['title']}):
 "{p['statement']}"
